@@ -58,7 +58,7 @@ META = {
             "sizes) or one endless stream without `last`; host ops: IN requests with literal delays, ACK+more / ACK only / retry "
             "/ same-sequence, foreign-endpoint ACKs; ~20 % of runs fault-free (no retries, no foreign traffic, ready always)",
 }
-TIERS = {"quick": {"runs": 2000, "wall": 70}, "thorough": {"runs": 25000, "wall": 900}}
+TIERS = {"quick": {"runs": 6000, "wall": 70}, "thorough": {"runs": 25000, "wall": 900}}
 
 RESP_BOUND = 24          # cycles (not counting tx stalls before the first word) for a response to begin
 HELD_MARGIN = 6          # a packet complete this many cycles before the request must be answered with data
